@@ -1,16 +1,16 @@
 """C01 - print o parse = identity (XML, JSON, LYB)"""
-from props import comps
+from props import comps, comps_json, oracles
 
 PID = "C01"
 LEVEL = "proof"
 
 
 def components():
-    return [comps.Utf8(), comps.XmlEsc(), comps.XmlVal()]
+    return [comps.Utf8(), comps.XmlEsc(), comps.XmlVal(), comps_json.JsonEsc(), comps_json.JsonStr()]
 
 
-def oracles():
-    return []
+def oracles_():
+    return [oracles.RoundTrip()]
 
 MANIFEST = {
     "text": "Coq theorems: the XML text printer/lexer pair is an exact round trip for every string of accepted characters of any "
